@@ -196,6 +196,8 @@ EXPECTED_BRANCHES += [
     'api/weighting-equiv/ProductSpaceArrayWeighting',
     'api/weighting-equiv/ProductSpaceConstWeighting',
     'api/weighting-equiv/const-vs-full-array',
+    'api/weighting-equiv/MatrixWeighting-vs-array-and-const',
+    'api/weighting-equiv/MatrixWeighting-vs-matrix',
     'api/zero-one/DiscretizedSpace',
     'api/zero-one/NumpyTensorSpace',
     'api/zero-one/ProductSpace',
@@ -3582,6 +3584,20 @@ def run_api_strata(ctx):
          bool(AW(A1).equiv(AW(A1.copy()))) and not AW(A1).equiv(AW(np.array([2.0, 2.0, 1.0]))),
          'a constant weighting is equivalent to the array weighting with that constant')
 
+    # MatrixWeighting.equiv (no model; `matrix_issparse` does not exist: finding C20-F19)
+    from odl.space.weighting import MatrixWeighting
+    D3 = np.array([1.0, 2.0, 3.0])
+    mw, mw2 = MatrixWeighting(np.diag(D3), impl='numpy'), MatrixWeighting(np.diag(D3), impl='numpy')
+    _api(ctx, 'weighting-equiv/MatrixWeighting-vs-array-and-const', lambda: bool(mw.equiv(AW(D3))) and
+         bool(AW(D3).equiv(mw)) and not mw.equiv(AW(D3 + 1)) and mw.is_valid() and
+         bool(MatrixWeighting(2 * np.eye(3), impl='numpy').equiv(CW(2.0))) and
+         bool(CW(2.0).equiv(MatrixWeighting(2 * np.eye(3), impl='numpy'))) and
+         not MatrixWeighting(2 * np.eye(3), impl='numpy').equiv(CW(3.0)) and mw.equiv(mw) is True,
+         'a diagonal MatrixWeighting is equivalent to the array / constant weighting of its diagonal')
+    _api(ctx, 'weighting-equiv/MatrixWeighting-vs-matrix', lambda: bool(mw.equiv(mw2)) and
+         bool(mw2.equiv(mw)) and not mw.equiv(MatrixWeighting(np.diag(D3 + 1), impl='numpy')),
+         'two MatrixWeightings with equal matrices are equivalent')
+
     # ---- H..N: elements of spaces
     for sn, S in api_spaces():
         rep = {'space': sn}
@@ -3616,6 +3632,10 @@ def run_api_strata(ctx):
                 break
             else:
                 return 'no other space found'
+            import copy as _copy
+            c1, c2 = _copy.copy(x), _copy.deepcopy(x)
+            if c1 is x or c2 is x or not (c1 == x and c2 == x and c1 in S and c2 in S):
+                return 'copy.copy / copy.deepcopy do not give equal new elements'
             if x == flat.tolist() or x == None or x == S:  # noqa
                 return 'equal to a non-element'
             return bool(x == x)
